@@ -208,6 +208,93 @@ func c07BacklogDHCPv6(n []uint64) string {
 	return c07Ok(c07U(uint64(returned)), c07U(uint64(accepted)), c07Bool(echo), c07Bool(drained))
 }
 
+// bkevd6 <cap> <events>: an arbitrary history of 'A' (a DHCPv6 Request reaches the receive handler) and 'F' (the provider
+// answers one held request) against a worker pool of <cap> slots; after every step the real semaphore occupancy
+// len(c.dhcp6Sem) and the outcome (1 dispatched, 2 dropped, 3 handler did not return, 4 finished, 5 nothing to finish).
+func c07EventsDHCPv6(n []uint64, events []byte) string {
+	c, bus := c07Component()
+	cfg, _ := c.cfgMgr.GetRunning()
+	cfg.IPv6Profiles = map[string]*ip.IPv6Profile{"v6": {DHCPv6: &ip.IPv6DHCPv6Options{Mode: "relay"}}}
+	gp := &c07GatedProvider{gate: make(chan struct{})}
+	c.dhcp6Providers = map[string]dhcp6.DHCPProvider{"relay": gp}
+	c.dhcp6Sem = make(chan struct{}, int(c07Num(n, 0)))
+	s := c07OpenV6Session(c, 0)
+	defer func() { s.lcp.FSM().Kill(); s.ipcp.FSM().Kill(); s.ipv6cp.FSM().Kill() }()
+	defer close(gp.gate)
+	_ = bus
+	duid := []byte{0x00, 0x03, 0x00, 0x01, 0xaa, 0x42, 0xa1, 0x0a, 0x54, 0x10}
+	var toks []string
+	for i, e := range events {
+		before := len(c.dhcp6Sem)
+		out := "5"
+		if e == 'F' {
+			if before > 0 {
+				select {
+				case gp.gate <- struct{}{}:
+					deadline := time.Now().Add(c07CallWatchdog)
+					for len(c.dhcp6Sem) != before-1 && time.Now().Before(deadline) {
+						time.Sleep(time.Millisecond)
+					}
+					out = "4"
+				case <-time.After(c07CallWatchdog):
+					out = "9"
+				}
+			}
+		} else {
+			req := []byte{byte(dhcp6.MsgTypeRequest), 0x12, byte(i >> 8), byte(i), 0x00, byte(dhcp6.OptClientID), 0x00, byte(len(duid))}
+			req = append(req, duid...)
+			frame := dhcp.BuildIPv6UDPFrame(net.ParseIP("fe80::a842:a1ff:fe0a:5497"), net.ParseIP("ff02::1:2"), 546, 547, req)
+			if !c07Deliver(s, ppp.ProtoIPv6, frame) {
+				toks = append(toks, c07U(uint64(len(c.dhcp6Sem))), "3")
+				break
+			}
+			out = "2"
+			if len(c.dhcp6Sem) == before+1 {
+				out = "1"
+			}
+		}
+		toks = append(toks, c07U(uint64(len(c.dhcp6Sem))), out)
+	}
+	if len(toks) == 0 {
+		return "ok"
+	}
+	return c07Ok(toks...)
+}
+
+// bkevra <K> <events>: 'A' = IPv6CP layer-up callback under the session lock, 'F' = the RA emitter takes one kick.
+func c07EventsRAKick(n []uint64, events []byte) string {
+	c, _ := c07Component()
+	c.raKicks = make(chan string, int(c07Num(n, 0)))
+	s := c07OpenV6Session(c, 0)
+	defer func() { s.lcp.FSM().Kill(); s.ipcp.FSM().Kill(); s.ipv6cp.FSM().Kill() }()
+	var toks []string
+	for _, e := range events {
+		before := len(c.raKicks)
+		out := "5"
+		if e == 'F' {
+			if before > 0 {
+				<-c.raKicks
+				out = "4"
+			}
+		} else {
+			if !c07Returns(c07CallWatchdog, func() { s.mu.Lock(); defer s.mu.Unlock(); s.onIPv6CPUp() }) {
+				c07Hangs++
+				toks = append(toks, c07U(uint64(len(c.raKicks))), "3")
+				break
+			}
+			out = "2"
+			if len(c.raKicks) == before+1 {
+				out = "1"
+			}
+		}
+		toks = append(toks, c07U(uint64(len(c.raKicks))), out)
+	}
+	if len(toks) == 0 {
+		return "ok"
+	}
+	return c07Ok(toks...)
+}
+
 // bkrakick <N>,<K>: N IPv6CP-up events (the FSM's layer-up callback, run under the session lock) while nobody
 // drains the K-slot RA kick queue.
 func c07BacklogRAKick(n []uint64) string {
@@ -257,6 +344,10 @@ func c07Sess(entry string, n []uint64, f []string) string {
 			k = "2"
 		}
 		return c07Ok(k, c07TB([]byte(s.Username)))
+	case "bkevd6":
+		return c07EventsDHCPv6(n, data)
+	case "bkevra":
+		return c07EventsRAKick(n, data)
 	case "bkdhcp6":
 		return c07BacklogDHCPv6(n)
 	case "bkrakick":
